@@ -78,6 +78,22 @@ Definition uint_conv (t' : gdtype) (v : sample) : sample := map (fun z => (z mod
 Definition spf_convert_chunk {A} (dflt : A) (o n : nat) (chunk : list A) : list A :=
   map (fun i => nth (i * o / n) chunk dflt) (seq 0 (length chunk * n / o)).
 
+(* the copy loop of the RAW branch of _GD_Change: nf = GD_BUFFER_SIZE / max(sizes) / max(spfs) frames per pass;
+   a pass that reads nothing ends the loop *)
+Definition frames_per_pass (buf size o n : nat) : nat := buf / size / Nat.max o n.
+
+Fixpoint change_loop {A} (dflt : A) (fuel per_pass o n : nat) (file : list A) : list A :=
+  match fuel with
+  | O => []
+  | S f => match firstn per_pass file with
+           | [] => []
+           | chunk => spf_convert_chunk dflt o n chunk ++ change_loop dflt f per_pass o n (skipn per_pass file)
+           end
+  end.
+
+Definition change_file {A} (dflt : A) (nf o n : nat) (file : list A) : list A :=
+  change_loop dflt (S (length file)) (nf * o) o n file.
+
 (* what the property asks: new sample j of frame q is old sample floor(j*o/n) of frame q *)
 Definition spf_spec_sample {A} (dflt : A) (o n : nat) (old : list A) (q j : nat) : A :=
   nth (q * o + j * o / n) old dflt.
